@@ -92,7 +92,8 @@ def xportLine (w : WorldSpec) (chunks : List Bytes) (dec : List (Bytes × Frame)
   let out' : Sx := .list (.atom "out" :: o.groups.flatten.map ofReply)
   let act : Sx := .list [.atom "act", strAtom "1", strAtom "varlink", .atom "t", .atom "t", .atom "t", .atom "t"]
   .list [.atom "xport", .list [.atom "unix", out], .list [.atom "unixmode", out'], .list [.atom "abstract", out],
-         .list [.atom "tcp", out'], .list [.atom "activate", out], .list [.atom "bridge", out'], act]
+         .list [.atom "tcp", out'], .list [.atom "activate", out], .list [.atom "bridge", out'],
+         .list [.atom "bridgecli", out], act]
 
 def asOptStrField : Sx → Option (Option String) := asOptStr
 
@@ -107,6 +108,13 @@ def addrLine (line : String) : String :=
     match asOptStr fds, parsePidSpec pid, asOptStr names, asNat passed, asStr a with
     | some fds, some pid, some names, some passed, some a => render (actenvLine fds pid names passed a)
     | _, _, _, _, _ => "(model-case-error)"
+  | some (.list [.atom "actlisten", _, _, rounds]) =>
+    -- every round: the activated service adopts the supervisor's socket (C16_spawn_recipe /
+    -- activationListener: one descriptor, own pid) and answers GetInfo; the socket's path is the supervisor's
+    let svc : Service := { vendor := "v0", product := "prod \"q\" ü", version := "0.1", url := "http://example.org/", ifaces := [] }
+    let o := serve consts svc [.req { method := "org.varlink.service.GetInfo" }]
+    let r : Sx := .list [.atom "round", .list (.atom "out" :: o.groups.flatten.map ofReply), .atom "t"]
+    render (.list (.atom "actlisten" :: List.replicate ((asNat rounds).getD 1) r))
   | some (.list (.atom "act3" :: w :: rest)) =>
     match parseWorld w with
     | some w =>
@@ -208,9 +216,18 @@ def addrPred (prop caseLine obsLine : String) : String :=
       match asOptStr fds, parsePidSpec pid, asOptStr names, asStr a with
       | some fds, some pid, some names, some a => verdictStr (AddrPred.P_actenv fds pid names a (parseLRes r))
       | _, _, _, _ => "fail unparsable-case"
+    | .list [.atom "actlisten", nb, idle, _], .list (.atom "actlisten" :: rs) =>
+      let suffix := "-nonblock-" ++ render nb ++ "-idle-" ++ render idle
+      let bad := rs.findSome? fun r => match r with
+        | Sx.list [Sx.atom "round", Sx.list (Sx.atom "out" :: reps), Sx.atom ex] =>
+          if reps.isEmpty then some ("activated-service-does-not-answer" ++ suffix)
+          else if ex != "t" then some ("activated-service-removes-the-supervisors-socket" ++ suffix)
+          else none
+        | _ => some ("activated-service-does-not-answer" ++ suffix)
+      (match bad with | some r => "fail " ++ r | none => "ok")
     | .list (.atom "act3" :: _ :: rest), .list [.atom "act3", .list (.atom "reply" :: _), act, .list [.atom "banner", .atom banner]] =>
       -- six identical runs stand for "the call was answered"; the activation facts are the point
-      let runs := ["a", "b", "c", "d", "e", "f"].map fun n => (n, AddrPred.XRes.out [])
+      let runs := ["a", "b", "c", "d", "e", "f", "g"].map fun n => (n, AddrPred.XRes.out [])
       let where_ := match rest with | [c] => (asStr c).getD "" | _ => ""
       -- the service's stdout belongs on the caller's stderr whenever the caller has one
       let stderrOpen := !(where_.splitOn ",").contains "2"
